@@ -433,6 +433,10 @@ func runLockToken(c *core.Ctx) {
 		}
 	}
 	seenT := map[string]bool{}
+	heldAt := map[string]uint64{}
+	for _, op := range e.TokenOps {
+		heldAt[fmt.Sprintf("take:%s|%s", e.Classes[op.Class].Name, kn(op.Func))] |= op.Held & e.MutexMask()
+	}
 	for _, op := range e.TokenOps {
 		key := fmt.Sprintf("take:%s|%s", e.Classes[op.Class].Name, kn(op.Func))
 		if seenT[key] {
@@ -443,8 +447,10 @@ func runLockToken(c *core.Ctx) {
 		switch {
 		case collector[op.Func]:
 			c.Pass(key, op.Pos, "taken by the collector")
+		case op.InSelect && op.Cancelable && op.Blocking && heldAt[key] != 0:
+			c.Fail(key, op.Pos, "%s waits for the repository token %s while holding %v: whoever needs that mutex meanwhile (requests for other repositories, the ticker, Close) blocks in Lock(), which no context cancels, for as long as the collection runs — and the collection itself waits for in-flight requests", op.Func, e.Classes[op.Class].Name, e.HeldNames(heldAt[key]))
 		case op.InSelect && op.Cancelable && op.Blocking:
-			c.Pass(key, op.Pos, "taken in a select that also waits for ctx.Done()")
+			c.Pass(key, op.Pos, "taken in a select that also waits for ctx.Done(), with no mutex held")
 		default:
 			c.Fail(key, op.Pos, "%s takes the repository token %s with a wait that cannot be cancelled: a request waiting for a running collection does not return when its context is cancelled", op.Func, e.Classes[op.Class].Name)
 		}
@@ -981,3 +987,149 @@ func runLockFlag(c *core.Ctx) {
 }
 
 func exprStringType(t types.Type) string { return types.TypeString(t, func(p *types.Package) string { return p.Name() }) }
+
+func init() {
+	register(&Rule{ID: "LK-REGISTRY", Floor: 2,
+		Doc: "lookup-or-create of a repository object is atomic: in each store's RepoGet the lookup in the registry of open repositories and the registration of a newly built repository hold one common mutex that is not released on any path from the lookup to the registration — otherwise two first requests for a repository each build their own object (own index copy, own lock, own request counter) and their index updates overwrite each other",
+		Run: func(c *core.Ctx) {
+			e := getLock(c)
+			r := requireRoles(c)
+			if r == nil {
+				return
+			}
+			for _, fam := range r.Families {
+				fn := e.MethodOf(fam.Store, "RepoGet")
+				key := "registry:" + fam.Store.Obj().Name()
+				if fn == nil {
+					c.Unresolved(key, "RepoGet of %s not found", fam.Store.Obj().Name())
+					continue
+				}
+				st, ok := fam.Store.Underlying().(*types.Struct)
+				if !ok {
+					continue
+				}
+				// registry fields: map / cache whose values are repositories of this family
+				regField := map[string]bool{}
+				for i := 0; i < st.NumFields(); i++ {
+					f := st.Field(i)
+					ts := f.Type().String()
+					if strings.Contains(ts, c.P.TypeName(fam.Repo)) || strings.Contains(ts, "."+fam.Repo.Obj().Name()) {
+						if _, isMap := f.Type().Underlying().(*types.Map); isMap || strings.Contains(ts, "cache.Cache[") {
+							regField[f.Name()] = true
+						}
+					}
+				}
+				if len(regField) == 0 {
+					c.Unresolved(key, "%s has no registry field holding %s", fam.Store.Obj().Name(), fam.Repo.Obj().Name())
+					continue
+				}
+				onReg := func(v ssa.Value) bool {
+					root, p := accessPath(an.Strip(v))
+					return len(p) == 1 && regField[p[0]] && root == ssa.Value(fn.Params[0])
+				}
+				fieldKey := func() string {
+					for f := range regField {
+						return c.P.TypeName(fam.Store) + "." + f
+					}
+					return ""
+				}()
+				heldAtPos := func(pos token.Pos) (uint64, bool) {
+					m, found := ^uint64(0), false
+					for _, a := range e.Accesses[fieldKey] {
+						if a.Pos == pos && a.Func == c.P.FuncName(fn) {
+							m &= a.Held
+							found = true
+						}
+					}
+					return m & e.MutexMask(), found
+				}
+				type ev struct {
+					in   ssa.Instruction
+					held uint64
+					ok   bool
+				}
+				var reads, writes []ev
+				an.Instrs(fn, func(in ssa.Instruction) {
+					switch x := in.(type) {
+					case *ssa.Lookup:
+						if onReg(x.X) {
+							h, ok := heldAtPos(x.Pos())
+							if !ok {
+								h, ok = heldAtPos(x.X.Pos())
+							}
+							reads = append(reads, ev{in, h, ok})
+						}
+					case *ssa.MapUpdate:
+						if onReg(x.Map) {
+							h, ok := heldAtPos(x.Pos())
+							if !ok {
+								h, ok = heldAtPos(x.Map.Pos())
+							}
+							writes = append(writes, ev{in, h, ok})
+						}
+					case ssa.CallInstruction:
+						if _, isDefer := x.(*ssa.Defer); isDefer {
+							return
+						}
+						isGet := an.IsMethod(x, c.P.Module+"/internal/cache", "Cache", "Get")
+						isSet := an.IsMethod(x, c.P.Module+"/internal/cache", "Cache", "Set")
+						if !isGet && !isSet {
+							return
+						}
+						recv, _ := an.CallArgs(x)
+						if !onReg(recv) {
+							return
+						}
+						h, ok := mustHeldAt(e, x)
+						if isGet {
+							reads = append(reads, ev{in, h, ok})
+						} else {
+							writes = append(writes, ev{in, h, ok})
+						}
+					}
+				})
+				if len(reads) == 0 || len(writes) == 0 {
+					c.Unresolved(key, "RepoGet of %s does not show a lookup and a registration on its registry field (reads %d, writes %d)", fam.Store.Obj().Name(), len(reads), len(writes))
+					continue
+				}
+				common := ^uint64(0)
+				reached := true
+				for _, x := range append(append([]ev{}, reads...), writes...) {
+					if !x.ok {
+						reached = false
+					}
+					common &= x.held
+				}
+				good := reached && common != 0
+				why := ""
+				if !reached {
+					why = "the lock state at the lookup or the registration could not be determined"
+				} else if common == 0 {
+					why = "no mutex is held at both the lookup and the registration"
+				}
+				if good {
+					an.Calls(fn, func(call ssa.CallInstruction) {
+						if _, isDefer := call.(*ssa.Defer); isDefer {
+							return
+						}
+						if !an.IsMethod(call, "sync", "Mutex", "Unlock") && !an.IsMethod(call, "sync", "RWMutex", "Unlock") {
+							return
+						}
+						for _, rd := range reads {
+							for _, wr := range writes {
+								if an.Reaches(rd.in, call) && an.Reaches(call, wr.in) {
+									good = false
+									why = fmt.Sprintf("the mutex is released at %s between the lookup and the registration", c.P.Pos(call.Pos()))
+								}
+							}
+						}
+					})
+				}
+				if good {
+					c.Pass(key, fn.Pos(), "lookup and registration in %s both hold %v with no release in between", c.P.FuncName(fn), e.HeldNames(common))
+				} else {
+					c.Fail(key, writes[0].in.Pos(), "%s looks a repository up and registers a new one without one mutex held across (%s): two first requests for the same repository each build and use their own repository object, and their index updates overwrite each other", c.P.FuncName(fn), why)
+				}
+			}
+		}})
+}
